@@ -33,6 +33,25 @@ type PsyncReq struct {
 	At      time.Time
 }
 
+type WriteEv struct {
+	At  time.Time
+	Pos int64
+}
+
+// WrittenBefore returns the highest stream position written at or before t.
+func (s *Source) WrittenBefore(t time.Time) int64 {
+	s.mu.Lock()
+	defer s.mu.Unlock()
+	var pos int64
+	for _, w := range s.Writes {
+		if w.At.After(t) {
+			break
+		}
+		pos = w.Pos
+	}
+	return pos
+}
+
 type DropEv struct {
 	At  time.Time
 	Pos int64
@@ -76,7 +95,8 @@ type Source struct {
 	dropAt   int64 // drop the link once this many stream bytes were written (-1 = never)
 	BadAuth  int
 	Drops    []DropEv
-	role     string // answered to INFO replication ("" = master); switchable at run time (fail-over)
+	Writes   []WriteEv // when which stream position had been handed to the kernel
+	role     string    // answered to INFO replication ("" = master); switchable at run time (fail-over)
 }
 
 // SetRole changes what the node reports in INFO replication from now on ("master" or "slave").
@@ -410,6 +430,7 @@ func (s *Source) writer(c net.Conn, id int, prefix []byte, from int64) {
 		s.mu.Lock()
 		if pos > s.written {
 			s.written = pos
+			s.Writes = append(s.Writes, WriteEv{At: time.Now(), Pos: pos})
 		}
 		s.mu.Unlock()
 		if sc.Gap > 0 {
